@@ -32,6 +32,9 @@ type c01Stream struct {
 	Size    int
 	Chunks  []int // write chunking (cycled); 0 entries = one write
 	ReadBuf int
+	// ReadPause: the reader sleeps this long (virtual time) before every Read: an application
+	// that lets the data pile up and then takes it with few large Reads (ReadBuf >= window)
+	ReadPause time.Duration
 }
 
 type c01Scenario struct {
@@ -39,6 +42,35 @@ type c01Scenario struct {
 	Streams   []c01Stream
 	Datagrams int  // per direction
 	Bulk      bool // larger than the initial congestion window: only used by the outage part
+	// Flow-control-limited scenarios (part fc-blocked, see c01_fc_test.go): receive windows of
+	// BOTH endpoints (initial = maximum, so the window is not auto-tuned away) and the limit on
+	// incoming streams; 0 = the Config default. Client kind "chrome115-fc" advertises the same
+	// values through the QUICSpec's transport parameters.
+	StreamWindow, ConnWindow int
+	MaxStreams               int
+	FC                       bool
+}
+
+// c01ScenarioAt resolves a scenario index: the scripted scenarios first, then the generated
+// flow-control-limited ones (so that stored replays of the former keep their meaning).
+func c01ScenarioAt(i int) c01Scenario {
+	if i < len(c01Scenarios) {
+		return c01Scenarios[i]
+	}
+	return c01FCScenarios[i-len(c01Scenarios)]
+}
+
+// applyLimits writes the scenario's windows and stream limits into a Config.
+func (sc c01Scenario) applyLimits(c *quic.Config) {
+	if sc.StreamWindow > 0 {
+		c.InitialStreamReceiveWindow, c.MaxStreamReceiveWindow = uint64(sc.StreamWindow), uint64(sc.StreamWindow)
+	}
+	if sc.ConnWindow > 0 {
+		c.InitialConnectionReceiveWindow, c.MaxConnectionReceiveWindow = uint64(sc.ConnWindow), uint64(sc.ConnWindow)
+	}
+	if sc.MaxStreams > 0 {
+		c.MaxIncomingStreams, c.MaxIncomingUniStreams = int64(sc.MaxStreams), int64(sc.MaxStreams)
+	}
 }
 
 var c01Scenarios = []c01Scenario{
@@ -76,6 +108,8 @@ type c01Result struct {
 	mu    sync.Mutex
 	fails []*explore.Fail
 	notes []string
+	// number of Reads that returned a whole flow-control window at once
+	fullWindowReads atomic.Int64
 }
 
 func (r *c01Result) fail(key, format string, a ...any) {
@@ -123,11 +157,20 @@ func c01Write(w io.WriteCloser, plan, size int, chunks []int) error {
 }
 
 // c01Read reads to EOF checking the prefix property on every Read.
-func (r *c01Result) read(who string, rd io.Reader, plan, size, bufSize int) (int, error) {
-	buf := make([]byte, bufSize)
+func (r *c01Result) read(who string, rd io.Reader, plan int, p c01Stream, fullWindow int) (int, error) {
+	size := p.Size
+	buf := make([]byte, p.ReadBuf)
 	total := 0
 	for {
+		if p.ReadPause > 0 {
+			time.Sleep(p.ReadPause) // virtual time
+		}
 		n, err := rd.Read(buf)
+		if fullWindow > 0 && n == fullWindow {
+			// (vacuity accounting only) one Read took exactly a whole receive window: the writer had
+			// used up all its credit and was waiting for this reader
+			r.fullWindowReads.Add(1)
+		}
 		for i := 0; i < n; i++ {
 			if total+i >= size {
 				r.fail("stream-extra-bytes", "%s plan %d: Read delivered byte %d beyond the %d bytes written", who, plan, total+i, size)
@@ -166,7 +209,7 @@ type c01Config struct {
 }
 
 func (c c01Config) String() string {
-	return fmt.Sprintf("%s/%s/v%d/seed%d %v", c01Scenarios[c.Scenario].Name, c.Kind, c.Version, c.Seed, c.Faults)
+	return fmt.Sprintf("%s/%s/v%d/seed%d %v", c01ScenarioAt(c.Scenario).Name, c.Kind, c.Version, c.Seed, c.Faults)
 }
 
 func c01Kind(name string) sim.ClientKind {
@@ -196,7 +239,15 @@ type c01Outcome struct {
 func c01Run(t *testing.T, cfg c01Config) c01Outcome {
 	var out c01Outcome
 	res := &c01Result{}
-	sc := c01Scenarios[cfg.Scenario]
+	sc := c01ScenarioAt(cfg.Scenario)
+	// a Read of this many bytes took a whole receive window (stream or connection) at once
+	fullWin := 0
+	if sc.FC {
+		fullWin = sc.StreamWindow
+		if sc.ConnWindow > 0 && (fullWin == 0 || sc.ConnWindow < fullWin) {
+			fullWin = sc.ConnWindow
+		}
+	}
 	ok := sim.Run(t, "run", cfg.Seed, func(t *testing.T) {
 		w := sim.NewWorld(cfg.Faults)
 		vers := []quic.Version{quic.Version1}
@@ -205,6 +256,8 @@ func c01Run(t *testing.T, cfg c01Config) c01Outcome {
 		}
 		sconf := &quic.Config{EnableDatagrams: sc.Datagrams > 0}
 		cconf := &quic.Config{Versions: vers, EnableDatagrams: sc.Datagrams > 0}
+		sc.applyLimits(sconf)
+		sc.applyLimits(cconf)
 		ln, err := w.Listen(w.ServerTLS(false), sconf)
 		if err != nil {
 			t.Fatal(err)
@@ -304,7 +357,7 @@ func c01Run(t *testing.T, cfg c01Config) c01Outcome {
 					}
 					plan := bidiPlans[int(s.StreamID())/4]
 					p := sc.Streams[plan]
-					if _, err := res.read("server", s, plan, p.Size, p.ReadBuf); err != nil {
+					if _, err := res.read("server", s, plan, p, fullWin); err != nil {
 						appErr("server read", err)
 						return
 					}
@@ -324,7 +377,7 @@ func c01Run(t *testing.T, cfg c01Config) c01Outcome {
 					}
 					plan := uniPlans[int(s.StreamID())/4]
 					p := sc.Streams[plan]
-					if _, err := res.read("server", s, plan, p.Size, p.ReadBuf); err != nil {
+					if _, err := res.read("server", s, plan, p, fullWin); err != nil {
 						appErr("server read uni", err)
 					}
 				}()
@@ -332,7 +385,7 @@ func c01Run(t *testing.T, cfg c01Config) c01Outcome {
 			swg.Wait()
 		}()
 		// ---- client application
-		d, _, _ := w.NewDialer(c01Kind(cfg.Kind))
+		d, _, _ := w.NewDialer(c01KindFor(cfg.Kind, sc))
 		conn, err := d.Dial(ctx, w.ServerAddr, w.ClientTLS(), cconf)
 		cliDone := make(chan struct{})
 		if err != nil {
@@ -368,7 +421,7 @@ func c01Run(t *testing.T, cfg c01Config) c01Outcome {
 								appErr("client write", err)
 								return
 							}
-							if _, err := res.read("client", s, i, p.Size, p.ReadBuf); err != nil {
+							if _, err := res.read("client", s, i, p, fullWin); err != nil {
 								appErr("client read echo", err)
 							}
 						}()
@@ -398,7 +451,7 @@ func c01Run(t *testing.T, cfg c01Config) c01Outcome {
 						}
 						plan := s2cPlans[int(s.StreamID())/4]
 						p := sc.Streams[plan]
-						if _, err := res.read("client", s, plan, p.Size, p.ReadBuf); err != nil {
+						if _, err := res.read("client", s, plan, p, fullWin); err != nil {
 							appErr("client read uni", err)
 						}
 					}()
@@ -438,7 +491,11 @@ func c01Run(t *testing.T, cfg c01Config) c01Outcome {
 					first = first[:i]
 				}
 			}
-			res.fail("transfer-incomplete:"+first, "with %d faults the transfers did not complete within 20 s of virtual time: complete=%v client-conn-error=%q server-conn-error=%q app errors=%v", len(cfg.Faults), complete, cerr, serr, appErrs)
+			key := "transfer-incomplete:" + first
+			if sc.FC {
+				key = "fc-blocked:" + key
+			}
+			res.fail(key, "with %d faults the transfers did not complete within 20 s of virtual time: complete=%v client-conn-error=%q server-conn-error=%q app errors=%v", len(cfg.Faults), complete, cerr, serr, appErrs)
 			cerrMu.Unlock()
 		}
 		// ---- teardown
@@ -466,6 +523,9 @@ func c01Run(t *testing.T, cfg c01Config) c01Outcome {
 		out.datagrams = [2]int{w.Router.Count(sim.C2S), w.Router.Count(sim.S2C)}
 		out.transcript = w.Router.Transcript()
 		out.class = fmt.Sprintf("complete=%v c2s~%d s2c~%d", complete, out.datagrams[0]/4*4, out.datagrams[1]/4*4)
+		if sc.FC {
+			out.class = fmt.Sprintf("%s complete=%v full-window-reads=%d", sc.Name, complete, res.fullWindowReads.Load())
+		}
 	})
 	out.fails = res.fails
 	if !ok && len(out.fails) == 0 {
@@ -610,7 +670,13 @@ func TestVerifC01(t *testing.T) {
 					}
 				}
 			}
-			return cfgs, fmt.Sprintf("every fault map with exactly 1 non-default fate (%d fates) on any datagram of the fault-free run, both directions, handshake included; %d scenarios x %v x {v1,v2}", len(c01Fates), len(c01Scenarios)-2, kinds)
+			nsc := 0
+			for _, s := range c01Scenarios {
+				if !s.Bulk {
+					nsc++
+				}
+			}
+			return cfgs, fmt.Sprintf("every fault map with exactly 1 non-default fate (%d fates) on any datagram of the fault-free run, both directions, handshake included; %d scenarios x %v x {v1,v2}", len(c01Fates), nsc, kinds)
 		}),
 		c01Part(t, "k2-first-datagrams", func(e explore.Env) ([]c01Config, string) {
 			N := 8
@@ -670,6 +736,7 @@ func TestVerifC01(t *testing.T) {
 		}
 		return cfgs, fmt.Sprintf("%d transfers of 150 kB (upload, download) x %v x an outage of 100 ms or 1 s (every datagram of one direction lost) starting at every %d. datagram of either direction of the fault-free run", n, ks, step)
 	}))
+	parts = append(parts, c01FCPart(t))
 	if explore.GetEnv().Thorough() {
 		parts = append(parts, c01Part(t, "k3-first-datagrams", func(e explore.Env) ([]c01Config, string) {
 			var cfgs []c01Config
